@@ -174,4 +174,25 @@ mod verif_kani_update {
         }
         kani::cover!(len == UPDATE_PAGE_SIZE && data[0] != 0 && data[24 * 20] != 0);
     }
+
+    /// C02: UpdateSection::from_bytes is total on every 1024-byte region (two pages) and on a region
+    /// with a trailing partial page; it stops at the first empty page and never reports more pages
+    /// than the region holds
+    #[kani::proof]
+    #[kani::unwind(26)]
+    fn section_from_bytes_total() {
+        let data: [u8; 1024] = kani::any();
+        let cut: bool = kani::any();
+        let d: &[u8] = if cut { &data[..1000] } else { &data[..] };
+        let s = UpdateSection::from_bytes(d);
+        let full_pages = d.len() / UPDATE_PAGE_SIZE;
+        assert!(s.page_count() <= full_pages, "no page is invented beyond the region");
+        assert!(s.capacity_pages() == MIN_UPDATE_SECTION_SIZE / UPDATE_PAGE_SIZE, "capacity never below the 60-page minimum");
+        assert!(s.entry_count() <= s.page_count() * ENTRIES_PER_PAGE);
+        if data[0] == 0 && data[1] == 0 && data[2] == 0 && data[3] == 0 {
+            assert!(s.page_count() == 0, "parsing stops at the first empty page");
+        }
+        kani::cover!(s.page_count() == 2);
+        kani::cover!(cut && s.page_count() == 1);
+    }
 }
